@@ -843,13 +843,11 @@ Proof.
   assert (Hu : Cfb_proofs.names_unique c) by exact Huniq.
   destruct (Cfb_proofs.cfb_new_written Hv Hfuel) as [cf [r [Hnew Hw]]].
   unfold xls_open_model, xls_file_write. fold c l. rewrite Hnew. cbn [obind].
-  assert (Hnovn : ~ In VBA_CUR (Cfb.all_names c)).
-  { intros Hi. apply negb_true_iff in Hvba. apply Cfb_proofs.mem_list_In in Hi. rewrite Hi in Hvba. discriminate. }
+  assert (Hnovn : Cfb.mem_name VBA_CUR (Cfb.all_names c) = false) by (apply negb_true_iff; exact Hvba).
   assert (Hin : In (wb_stream_name ch, xls_stream_write wb ch) (Cfb.c_streams c)).
   { unfold c, xls_container. cbn [Cfb.c_streams]. apply in_or_app. right. left. reflexivity. }
-  assert (Hnowb : xc_book ch = true -> ~ In Cfb.WORKBOOK (Cfb.all_names c)).
-  { intros Eb Hi. rewrite Eb in Hbook. cbn [negb orb] in Hbook. apply negb_true_iff in Hbook.
-    apply Cfb_proofs.mem_list_In in Hi. rewrite Hi in Hbook. discriminate. }
+  assert (Hnowb : xc_book ch = true -> Cfb.mem_name Cfb.WORKBOOK (Cfb.all_names c) = false).
+  { intros Eb. rewrite Eb in Hbook. cbn [negb orb] in Hbook. apply negb_true_iff in Hbook. exact Hbook. }
   assert (Hplain_vba : Cfb_proofs.plain VBA_CUR) by (split; discriminate).
   assert (Hboth : Cfb.has_directory cf VBA_CUR = false /\ Cfb.workbook_or_book cf r = Ok (xls_stream_write wb ch)).
   { apply orb_true_iff in Hlinks. destruct Hlinks as [Hflat|Htree].
@@ -857,20 +855,19 @@ Proof.
       assert (Hfl : Cfb_proofs.flat_root c l) by exact Hflat.
       destruct (@Cfb_proofs.has_directory_flat c l fuel Hv Hfl Hfuel) as (cf' & r' & Hnew' & _ & Hhas).
       rewrite Hnew in Hnew'. inversion Hnew'; subst cf' r'. split.
-      + destruct (Cfb.has_directory cf VBA_CUR) eqn:E; [|reflexivity].
-        exfalso. apply Hnovn. apply (proj1 (Hhas _ Hplain_vba)). exact E.
+      + rewrite (Hhas _ Hplain_vba). exact Hnovn.
       + destruct (@Cfb_proofs.flat_workbook_stream_preferred c l fuel Hv Hfl Hu Hfuel) as [P1 P2].
         unfold Cfb.xls_workbook_stream in P1, P2. rewrite Hnew in P1, P2. cbn [obind] in P1, P2.
         unfold wb_stream_name in Hin. destruct (xc_book ch) eqn:Eb.
-        * apply P2; [apply Hnowb; reflexivity|exact Hin].
-        * apply P1. exact Hin.
+        * apply (P2 Cfb.BOOK); [apply Hnowb; reflexivity|reflexivity|exact Hin].
+        * apply (P1 Cfb.WORKBOOK); [reflexivity|exact Hin].
     - (* a tree of links: lookups by path from the root storage *)
       apply andb_true_iff in Htree. destruct Htree as [Htree Hroot]. apply N.eqb_eq in Hroot.
       assert (Ht : Cfb_proofs.linked_tree c l) by exact Htree.
       destruct (@Cfb_proofs.has_directory_root c l Hv Ht fuel Hfuel) as (cf' & r' & Hnew' & _ & Hhas).
       rewrite Hnew in Hnew'. inversion Hnew'; subst cf' r'. split.
       + rewrite (Hhas _ Hplain_vba). destruct (Cfb.resolve c 0 [VBA_CUR]) as [p|] eqn:Er; [|reflexivity].
-        exfalso. apply Hnovn. apply (Cfb_proofs.resolve_one_in_names _ _ Er).
+        exfalso. rewrite (Cfb_proofs.resolve_one_in_names _ _ Er) in Hnovn. discriminate.
       + (* the workbook stream is the object wb_object of the container, held by the root *)
         destruct (Cfb_proofs.valid_dir Hv) as [_ [_ [_ [_ [_ Hh]]]]].
         assert (Hobj : nth_error (Cfb.all_names c) (wb_object ch) = Some (wb_stream_name ch)).
@@ -878,7 +875,8 @@ Proof.
           rewrite nth_error_app2 by lia. replace (length (xc_storages ch) + length (xc_pre ch) - length (xc_storages ch))%nat
             with (length (xc_pre ch)) by lia.
           rewrite map_app. rewrite nth_error_app2 by (rewrite map_length; lia). rewrite map_length, Nat.sub_diag. reflexivity. }
-        pose proof (@Cfb_proofs.resolve_one_root c (wb_object ch) (wb_stream_name ch) Hh Hobj Hroot) as Hres.
+        pose proof (@Cfb_proofs.resolve_one_root c (wb_object ch) (wb_stream_name ch) (wb_stream_name ch) Hh Hobj Hroot
+                      eq_refl) as Hres.
         assert (Hsp : Cfb.spec_path c [wb_stream_name ch] = Some (xls_stream_write wb ch)).
         { unfold Cfb.spec_path. rewrite Hres.
           replace (N.of_nat (length (Cfb.c_storages c)) <? N.of_nat (S (wb_object ch))) with true
@@ -891,11 +889,11 @@ Proof.
         * unfold Cfb.spec_workbook. unfold wb_stream_name in Hsp. destruct (xc_book ch) eqn:Eb.
           -- replace (Cfb.spec_path c [Cfb.WORKBOOK]) with (@None (list N)); [exact Hsp|]. symmetry.
              unfold Cfb.spec_path. destruct (Cfb.resolve c 0 [Cfb.WORKBOOK]) as [p|] eqn:Er; [|reflexivity].
-             exfalso. apply (Hnowb eq_refl). apply (Cfb_proofs.resolve_one_in_names _ _ Er).
+             exfalso. rewrite (Cfb_proofs.resolve_one_in_names _ _ Er) in Hnowb. specialize (Hnowb eq_refl). discriminate.
           -- rewrite Hsp. reflexivity.
         * unfold Cfb.root_storage_named. unfold wb_stream_name in Hres. destruct (xc_book ch) eqn:Eb.
           -- destruct (Cfb.resolve c 0 [Cfb.WORKBOOK]) as [p|] eqn:Er; [|reflexivity].
-             exfalso. apply (Hnowb eq_refl). apply (Cfb_proofs.resolve_one_in_names _ _ Er).
+             exfalso. rewrite (Cfb_proofs.resolve_one_in_names _ _ Er) in Hnowb. specialize (Hnowb eq_refl). discriminate.
           -- rewrite Hres. apply andb_false_iff. right. apply N.leb_gt.
              unfold c, xls_container, wb_object. cbn [Cfb.c_storages]. lia. }
   destruct Hboth as [Hnov Hwb]. rewrite Hnov.
